@@ -77,6 +77,25 @@ pub fn hash(h: Hid, parts: &[&[u8]]) -> Vec<u8> {
     }
 }
 
+/// the first 32 output bytes of the hash (for SHAKE: the XOF stream beyond n; for SHA-256: the untruncated digest)
+pub fn hash32(h: Hid, parts: &[&[u8]]) -> Vec<u8> {
+    if h.shake() {
+        let mut x = sha3::Shake256::default();
+        for p in parts {
+            x.update(p);
+        }
+        let mut out = vec![0u8; 32];
+        x.finalize_xof().read(&mut out);
+        out
+    } else {
+        let mut x = sha2::Sha256::new();
+        for p in parts {
+            Digest::update(&mut x, p);
+        }
+        x.finalize().to_vec()
+    }
+}
+
 pub const D_PBLC: [u8; 2] = [0x80, 0x80];
 pub const D_MESG: [u8; 2] = [0x81, 0x81];
 pub const D_LEAF: [u8; 2] = [0x82, 0x82];
